@@ -536,8 +536,8 @@ func (m *Model) ruleKEYSPACE(r *Results) {
 							continue
 						}
 					}
-					if hasBodyTest(c) {
-						haveBody = true
+					if c.Kind == sqlp.EIsNull && c.Not && isCol(c.Args[0], "value") {
+						haveBody = true // the encoding the key-value reads use
 						continue
 					}
 					extra++
